@@ -92,6 +92,9 @@ func main() {
 				continue
 			}
 			fmt.Fprintf(w, "%s\t%s\n", line, safeRun(rn, st, f[1:]))
+			// every answered op is on stdout before the next one runs: if the process dies (a Go panic in a
+			// connection goroutine cannot be recovered here) the caller knows which op it died in
+			w.Flush()
 		}
 	default:
 		os.Exit(2)
